@@ -311,6 +311,28 @@ def check(ctx):
         ctx.ob("validate_field.recurses", vf, n.ast, okk, "recurses into the held sub-configuration" if okk else
                "recursion does not target the held sub-configuration", node=n)
         coll = [kw for kw in n.ast.keywords if kw.arg == "collect_errors"] or n.ast.args
+        if coll:
+            # collecting below is fine when the mode is the caller's own and the nested list is handed up and kept: the nested call's
+            # result is returned by _validate_field, Schema._validate passes its own collect_errors down and extends its list with
+            # what comes back (in raising mode the nested validate() still raises)
+            cval = coll[0].value if isinstance(coll[0], ast.keyword) else coll[0]
+            own_mode = isinstance(cval, ast.Name) and cval.id in vf.positional_params + [a.arg for a in vf.node.args.kwonlyargs] \
+                and all(k == "param" for k, _ in value_sources(vf, cval, n))
+            returned = any(r.ast.value is not None and any(k == "expr" and pl is n.ast for k, pl in value_sources(vf, r.ast.value, r)) for r in returns_of(an, vf))
+            kept = False
+            gs_ = an.cfg(sv)
+            for m in gs_.nodes:
+                if m.kind == "call" and vf in an.callees(sv, m):
+                    tg_ = [t for t in an.targets(sv, m) if t.kind == "fn" and t.fn is vf]
+                    bound = an.bind_args(tg_[0], sv, m).get(cval.id) if tg_ and isinstance(cval, ast.Name) else None
+                    passes_own = isinstance(bound, ast.Name) and bound.id == "collect_errors"
+                    par = getattr(m.ast, "_parent", None)
+                    extends = isinstance(par, ast.Call) and isinstance(par.func, ast.Attribute) and par.func.attr == "extend" and m.ast in par.args \
+                        and isinstance(par.func.value, ast.Name)
+                    if passes_own and extends:
+                        kept = True
+            if own_mode and returned and kept:
+                coll = []
         ctx.ob("validate_field.recursion-raises", vf, n.ast, not coll,
                "nested validation runs in raising mode, so a nested failure surfaces" if not coll else
                "nested validation collects errors and the list is dropped", node=n)
